@@ -70,6 +70,7 @@ type evModel struct {
 type note struct {
 	what     string
 	optional bool
+	step     int // optional notes of one step (one consumer's death ends several subscriptions) come in any order
 }
 
 type world struct {
@@ -176,6 +177,32 @@ func (w *world) expect(c int, what string) {
 // matchNotes reports whether got can be obtained from exp by deleting optional entries;
 // complete=false accepts a prefix of such a sequence.
 func matchNotes(got []string, exp []note, complete bool) bool {
+	// two optional notes of the same step may arrive in either order
+	for j := 0; j+1 < len(exp); j++ {
+		if exp[j].optional && exp[j+1].optional && exp[j].step == exp[j+1].step && exp[j].what != exp[j+1].what {
+			swapped := append([]note{}, exp...)
+			swapped[j], swapped[j+1] = swapped[j+1], swapped[j]
+			// (try the swapped order for this pair, keeping the rest as it is; pairs further right
+			// are handled by the recursive calls)
+			if matchNotesFrom(got, swapped, complete, j+2) {
+				return true
+			}
+		}
+	}
+	return matchNotesFrom(got, exp, complete, len(exp))
+}
+
+// matchNotesFrom: as matchNotes, considering swaps only for pairs starting at index >= from.
+func matchNotesFrom(got []string, exp []note, complete bool, from int) bool {
+	for j := from; j+1 < len(exp); j++ {
+		if exp[j].optional && exp[j+1].optional && exp[j].step == exp[j+1].step && exp[j].what != exp[j+1].what {
+			swapped := append([]note{}, exp...)
+			swapped[j], swapped[j+1] = swapped[j+1], swapped[j]
+			if matchNotesFrom(got, swapped, complete, j+2) {
+				return true
+			}
+		}
+	}
 	var rec func(i, j int) bool
 	rec = func(i, j int) bool {
 		if i == len(got) {
@@ -264,7 +291,7 @@ func (w *world) dropSub(e *evModel, c int, byUnsubscribe bool) {
 	}
 	delete(e.subs, c)
 	if len(e.subs) == 0 && e.notify && e.registered {
-		w.expProd[e.owner] = append(w.expProd[e.owner], note{"stop:" + string(e.name), !byUnsubscribe})
+		w.expProd[e.owner] = append(w.expProd[e.owner], note{"stop:" + string(e.name), !byUnsubscribe, w.step})
 	}
 }
 
@@ -390,7 +417,7 @@ func TestModel(t *testing.T) {
 				w.fatalf("consumer c%d subscribing to %s (buffer %d, published %v) was handed %v, expected %v", c, e.name, e.buf, e.hist, got, want)
 			}
 			if len(e.subs) == 0 && e.notify {
-				w.expProd[e.owner] = append(w.expProd[e.owner], note{"start:" + string(e.name), false})
+				w.expProd[e.owner] = append(w.expProd[e.owner], note{"start:" + string(e.name), false, w.step})
 			}
 			if link {
 				e.subs[c] = "link"
@@ -785,6 +812,7 @@ func TestConcurrent(t *testing.T) {
 		var subs []*subRec
 		var wg sync.WaitGroup
 		var pubsDone atomic.Int32
+		var harnessLate atomic.Bool // a call into a process did not come back within the harness's own 10 s
 		for p := 0; p < npub; p++ {
 			wg.Add(1)
 			go func(p int) {
@@ -833,6 +861,9 @@ func TestConcurrent(t *testing.T) {
 						}
 						sr.retAt = clock.Add(1)
 					}); e2 != nil || err != nil {
+						if e2 != nil {
+							harnessLate.Store(true)
+						}
 						return // the consumer is gone or the call failed: judged below
 					}
 					for _, m := range last {
@@ -844,8 +875,22 @@ func TestConcurrent(t *testing.T) {
 						// more). Which publications "arrived before the unsubscribe" is not observable,
 						// so a remote consumer stays subscribed until the stream has ended and drained.
 						kit.WaitUntil(20*time.Second, func() bool { return pubsDone.Load() == int32(npub) })
+						// everything published after the subscribe call returned must arrive: wait for
+						// that many deliveries; only a long silence ends the wait before
+						mu.Lock()
+						need := 0
+						for _, pr := range published {
+							if pr.start > sr.retAt {
+								need++
+							}
+						}
+						mu.Unlock()
 						last, since := len(received(c)), time.Now()
-						for time.Since(since) < 150*time.Millisecond {
+						for {
+							quiet := time.Since(since)
+							if (last-sr.firstIdx >= need && quiet > 150*time.Millisecond) || quiet > 6*time.Second {
+								break
+							}
 							time.Sleep(5 * time.Millisecond)
 							if n := len(received(c)); n != last {
 								last, since = n, time.Now()
@@ -866,6 +911,9 @@ func TestConcurrent(t *testing.T) {
 						sr.unsubEnd = clock.Add(1)
 						sr.endIdx = len(received(c))
 					}); e2 != nil || err != nil {
+						if e2 != nil {
+							harnessLate.Store(true)
+						}
 						return
 					}
 					mu.Lock()
@@ -897,6 +945,9 @@ func TestConcurrent(t *testing.T) {
 			}
 		}
 		time.Sleep(10 * time.Millisecond)
+		if harnessLate.Load() {
+			t.Skip("inconclusive: a call into a harness process took more than 10 s (busy machine), a subscription may be unrecorded")
+		}
 		// no consumer may have died
 		for c := range cons {
 			for _, e := range probe.EventsOf(fmt.Sprintf("c%d", c)) {
